@@ -91,20 +91,8 @@ fn check_trace(c: &TraceCase) -> CheckResult {
             ));
         }
     }
-    // exact inside the recorded prefix: delta <= largest recorded distance
-    {
-        let l = *refd.last().unwrap();
-        for delta in 1..=l.min(upto) as usize {
-            // reference: 1 + #{k : refd[k] < delta}
-            let exp = 1 + refd.iter().filter(|x| (**x as usize) < delta).count();
-            if eta[delta] != exp {
-                return Err(format!(
-                    "inside the recorded prefix (delta={} <= {}) the curve says {} but the trace's minimum distances {:?} imply {}",
-                    delta, l, eta[delta], refd, exp
-                ));
-            }
-        }
-    }
+    // (exactness inside the recorded prefix is not claimed for trace-derived curves: only that the
+    // curve bounds the trace; an over-approximation is allowed)
     out.inner = upto;
     let burst = c.trace.windows(2).any(|w| w[0] == w[1]);
     let gaps: std::collections::BTreeSet<u64> = c.trace.windows(2).map(|w| w[1] - w[0]).collect();
@@ -296,7 +284,7 @@ fn check_dmin(c: &DminCase) -> CheckResult {
 pub fn def() -> PropertyDef {
     PropertyDef {
         id: "C12",
-        rule: "generated: (a) event traces (non-decreasing offsets with simultaneous events, bursts and long gaps), prefix_jobs 1..8, plain and extrapolating wrapping: max events of the trace in any window of every length delta <= span+30 (window counting) <= curve(delta), and exact w.r.t. the trace's own minimum spans inside the recorded prefix; (b) sub-additive sources (Periodic, Sporadic with J <= 4T, extrapolating super-additive curves incl. plateau-ended ones, jittered clones, sums, vectors; depth <= 2) with from_arrival_bound(n), from_arrival_bound_until(h), ArrivalCurvePrefix::from_arrival_bound_until(h), Curve::from(&prefix), From<Periodic|Sporadic>: derived >= source for every delta up to 4x the covered prefix plus 6 source scales, and == source up to the covered prefix (largest recorded minimum distance resp. horizon); (c) delta_min_iter over every arrival spec: starts (0,0),(1,0), then n consecutive from 2 with eta(x+1) >= n and eta(x) < n, ends only if no more events fit. Non-trivial: trace with a burst or >= 2 distinct gaps and span beyond the prefix; derived checked beyond the covered prefix for a jittered/bursty/nested source; >= 3 dual pairs. Known finding matched by signature: a trace with more than prefix_jobs simultaneous events (inferred prefix all zero) divides by zero.".into(),
+        rule: "generated: (a) event traces (non-decreasing offsets with simultaneous events, bursts and long gaps), prefix_jobs 1..8, plain and extrapolating wrapping: max events of the trace in any window of every length delta <= span+30 (window counting) <= curve(delta); (b) sub-additive sources (Periodic, Sporadic with J <= 4T, extrapolating super-additive curves incl. plateau-ended ones, jittered clones, sums, vectors; depth <= 2) with from_arrival_bound(n), from_arrival_bound_until(h), ArrivalCurvePrefix::from_arrival_bound_until(h), Curve::from(&prefix), From<Periodic|Sporadic>: derived >= source for every delta up to 4x the covered prefix plus 6 source scales, and == source up to the covered prefix (largest recorded minimum distance resp. horizon); (c) delta_min_iter over every arrival spec: starts (0,0),(1,0), then n consecutive from 2 with eta(x+1) >= n and eta(x) < n, ends only if no more events fit. Non-trivial: trace with a burst or >= 2 distinct gaps and span beyond the prefix; derived checked beyond the covered prefix for a jittered/bursty/nested source; >= 3 dual pairs. Known finding matched by signature: a trace with more than prefix_jobs simultaneous events (inferred prefix all zero) divides by zero.".into(),
         assumptions: vec![
             "traces are non-decreasing with >= 2 events, prefix_jobs >= 1".into(),
             "sources of derived curves are sub-additive (a plain non-extrapolating Curve or an ArrivalCurvePrefix is not used as a source: its repetition tail is an over-approximation nobody claims to be sub-additive, and dominance of a delta-min representation presupposes it)".into(),
